@@ -69,7 +69,19 @@ theorem checkChain_first_fault (s : HistStore) (pre post : List ChainEntry) (e :
 
 theorem loadOne_no_chain (here : RelPath) (s : HistStore) (kids : List Hist) (h : s.chainPresent = false) :
     loadOne here (some s) kids = .error errNoChain := by
-  simp [loadOne, h]; rfl
+  rw [loadOne_spec]; simp [storeFault, h]
+
+/-- the folder's own checks (`checkStore`) are all that can make `loadOne` fail -/
+theorem loadOne_eq (here : RelPath) (store : Option HistStore) (kids : List Hist) :
+    loadOne here store kids = (checkStore store).map fun _ => buildHist here store kids := by
+  unfold loadOne; cases checkStore store <;> rfl
+
+theorem checkStore_no_chain (s : HistStore) (h : s.chainPresent = false) :
+    checkStore (some s) = .error errNoChain := by
+  simp [checkStore, h]; rfl
+
+theorem checkStore_chain (s : HistStore) (h : s.chainPresent = true) : checkStore (some s) = checkChain s := by
+  simp [checkStore, h]
 
 theorem loadOne_none (here : RelPath) (kids : List Hist) :
     loadOne here none kids = .ok (.mk here [] [] false kids) := rfl
@@ -78,12 +90,12 @@ theorem loadOne_none (here : RelPath) (kids : List Hist) :
 theorem loadOne_chain_fault (here : RelPath) (s : HistStore) (kids : List Hist) (x : Err)
     (hp : s.chainPresent = true) (h : checkChain s = .error x) :
     loadOne here (some s) kids = .error x := by
-  simp [loadOne, hp, h, bind, Except.bind]
+  rw [loadOne_eq, checkStore_chain s hp, h]; rfl
 
 theorem loadOne_ok (here : RelPath) (s : HistStore) (kids : List Hist)
     (hp : s.chainPresent = true) (h : checkChain s = .ok ()) :
     loadOne here (some s) kids = .ok (.mk here (loadGens s) s.chain true kids) := by
-  simp [loadOne, hp, h, bind, Except.bind, pure, Except.pure]
+  rw [loadOne_eq, checkStore_chain s hp, h]; rfl
 
 /-- a store is faulty "as in 2/3": no chain file, or a chain whose first problematic entry is modified (31) or
 missing / unknown (33) -/
@@ -175,7 +187,9 @@ theorem faulty_iff (s : HistStore) (x : Err) : Faulty s x ↔ ∀ here kids, loa
 /-- the root is checked before the children are looked for -/
 theorem loadHistory_root_error (t : Node) (x : Err) (h : loadOne [] t.hist [] = .error x) :
     loadHistory t = .error x := by
-  simp [loadHistory, h, bind, Except.bind]
+  have hs : storeFault t.hist = some x := by rw [← loadOne_err [] t.hist [], h]; rfl
+  have hc : checkStore t.hist = .error x := by rw [checkStore_spec, hs]
+  simp [loadHistory, hc, bind, Except.bind]
 
 theorem loadHistory_root_fault (n : String) (cs : List Node) (s : HistStore) (x : Err) (h : Faulty s x) :
     loadHistory (.dir n cs (some s)) = .error x :=
@@ -185,10 +199,14 @@ theorem loadHistory_root_fault (n : String) (cs : List Node) (s : HistStore) (x 
 theorem loadHistory_children_error (t : Node) (r : Hist) (x : Err)
     (hroot : loadOne [] t.hist [] = .ok r) (h : findChildren [] t = .error x) :
     loadHistory t = .error x := by
-  simp [loadHistory, hroot, h, bind, Except.bind]
+  have hs : storeFault t.hist = none := by rw [← loadOne_err [] t.hist [], hroot]; rfl
+  have hc : checkStore t.hist = .ok () := by rw [checkStore_spec, hs]
+  simp [loadHistory, hc, h, bind, Except.bind]
 
-/-- general nesting, complete form: `loadHistory` fails with the FIRST fault of the tree in evaluation order (root
-store, then the children in stored order, each after what is below it), and succeeds iff there is no fault at all -/
+/-- general nesting, complete form: `loadHistory` fails with the FIRST fault of the tree in walk order (`allFaults`:
+the root's own store, then the children in NAME order, each child's own store before what is below it), and succeeds
+iff there is no fault at all.  Sibling names need not be distinct for this to be well defined: the stable sort keeps
+the stored order among equal names (which a real directory never has). -/
 theorem loadHistory_error_iff (t : Node) (x : Err) :
     loadHistory t = .error x ↔ (allFaults t).head? = some x := by
   rw [← loadHistory_err, exceptErr_eq_some]
@@ -219,18 +237,129 @@ theorem loadHistory_child_fault_single (rn n : String) (rootStore : Option HistS
     rw [← loadOne_err [] rootStore [], hroot]; rfl
   have hp := nestedFaultsList_noHist pre ((noHistList_iff pre).2 hpre)
   have hq := nestedFaultsList_noHist post ((noHistList_iff post).2 hpost)
-  have hc := nestedFaultsList_noHist cs ((noHistList_iff cs).2 hcs)
-  simp [allFaults, Node.hist, h1, nestedFaults, nestedFaultsList_append, nestedFaultsList, hp, hq, hc,
-    storeFault_of_faulty s x h]
+  have hc : nestedFaults (.dir n cs (some s)) = [] := by
+    rw [nestedFaults]
+    exact flatMap_isort_nil _ (nestedFaultsList_noHist cs ((noHistList_iff cs).2 hcs))
+  simp only [allFaults, Node.hist, h1, Option.toList, List.nil_append]
+  rw [nestedFaults, nestedFaultsList_append, nestedFaultsList, flatMap_isort_single _ _ _ hp hq]
+  simp [Node.hist, hc, storeFault_of_faulty s x h]
 
 /-- the same at any depth: the faulty history sits below a chain of history-free folders -/
 theorem nestedFaults_single_deep (n : String) (pre post : List Node) (c : Node) (hh : Option HistStore) (x : Err)
     (hpre : ∀ c ∈ pre, noHist c = true) (hpost : ∀ c ∈ post, noHist c = true)
-    (hc : nestedFaults c ++ (storeFault c.hist).toList = [x]) :
+    (hc : (storeFault c.hist).toList ++ nestedFaults c = [x]) :
     nestedFaults (.dir n (pre ++ c :: post) hh) = [x] := by
   have hp := nestedFaultsList_noHist pre ((noHistList_iff pre).2 hpre)
   have hq := nestedFaultsList_noHist post ((noHistList_iff post).2 hpost)
-  simp [nestedFaults, nestedFaultsList_append, nestedFaultsList, hp, hq, hc]
+  rw [nestedFaults, nestedFaultsList_append, nestedFaultsList, flatMap_isort_single _ _ _ hp hq]
+  exact hc
+
+/-! ### 4b. the order in which damage is reported -/
+
+/-- the faults a child folder contributes: its own store first, then what is nested in it -/
+theorem nestedFaults_dir (n : String) (cs : List Node) (h : Option HistStore) :
+    nestedFaults (.dir n cs h) =
+      (isort keyLe (cs.map fun c => (c.name, (storeFault c.hist).toList ++ nestedFaults c))).flatMap (·.2) := by
+  rw [nestedFaults, nestedFaultsList_eq_map]
+
+/-- THE ORDER OF REPORTING.  The root store is fine; a child `c` has a damaged store of its own (fault `x`); every
+other child either has a strictly greater name or is free of faults (itself and everything below it).  Then
+`loadHistory` reports `x` — whatever else is damaged INSIDE `c` (a damaged parent history is reported before any
+damage in its nested histories) and whatever is damaged in the siblings with greater names (of two damaged sibling
+histories the one with the smaller name is reported), and wherever the children are listed in the stored order. -/
+theorem loadHistory_fault_order (rn : String) (pre post : List Node) (c : Node) (rootStore : Option HistStore)
+    (x : Err) (hroot : storeFault rootStore = none) (hc : storeFault c.hist = some x)
+    (hothers : ∀ c' ∈ pre ++ post,
+      strLe c'.name c.name = false ∨ (storeFault c'.hist = none ∧ nestedFaults c' = [])) :
+    loadHistory (.dir rn (pre ++ c :: post) rootStore) = .error x := by
+  rw [loadHistory_error_iff]
+  simp only [allFaults, Node.hist, hroot, Option.toList, List.nil_append]
+  rw [nestedFaults, head?_flatMap]
+  let p : String × List Err := (c.name, (storeFault c.hist).toList ++ nestedFaults c)
+  have hpv : p.2.head? = some x := by simp [p, hc]
+  rw [← hpv]
+  have hmem : ∀ q ∈ nestedFaultsList (pre ++ c :: post), q = p ∨ ∃ c' ∈ pre ++ post,
+      q = (c'.name, (storeFault c'.hist).toList ++ nestedFaults c') := by
+    intro q hq
+    rw [nestedFaultsList_eq_map, List.mem_map] at hq
+    obtain ⟨c', hc', rfl⟩ := hq
+    rcases List.mem_append.1 hc' with h | h
+    · exact Or.inr ⟨c', List.mem_append_left _ h, rfl⟩
+    · rcases List.mem_cons.1 h with rfl | h
+      · exact Or.inl rfl
+      · exact Or.inr ⟨c', List.mem_append_right _ h, rfl⟩
+  apply findSome?_sorted_first keyLe (fun q : String × List Err => q.2.head?) _ p
+  · exact isort_pairwise_d keyLe keyLe_total keyLe_trans _
+  · rw [mem_isort_d, nestedFaultsList_eq_map, List.mem_map]
+    exact ⟨c, by simp, rfl⟩
+  · rw [hpv]; simp
+  · intro q hq
+    rw [mem_isort_d] at hq
+    rcases hmem q hq with rfl | ⟨c', hc', rfl⟩
+    · exact Or.inl rfl
+    · rcases hothers c' hc' with h | ⟨h1, h2⟩
+      · exact Or.inr (Or.inr h)
+      · exact Or.inr (Or.inl (by simp [h1, h2]))
+
+/-- special case: a damaged parent history is reported before any damage in its nested histories -/
+theorem loadHistory_parent_before_nested (rn n : String) (cs : List Node) (s : HistStore)
+    (rootStore : Option HistStore) (x : Err) (hroot : storeFault rootStore = none) (h : Faulty s x) :
+    loadHistory (.dir rn [.dir n cs (some s)] rootStore) = .error x :=
+  loadHistory_fault_order rn [] [] (.dir n cs (some s)) rootStore x hroot (storeFault_of_faulty s x h)
+    (by simp)
+
+/-- special case: of two damaged sibling histories the one with the smaller name is reported, in either stored
+order and whatever is nested in them -/
+theorem loadHistory_smaller_sibling_first (rn a b : String) (csa csb : List Node) (sa sb : HistStore)
+    (rootStore : Option HistStore) (x : Err) (hroot : storeFault rootStore = none)
+    (hab : a < b) (h : Faulty sa x) :
+    loadHistory (.dir rn [.dir a csa (some sa), .dir b csb (some sb)] rootStore) = .error x ∧
+    loadHistory (.dir rn [.dir b csb (some sb), .dir a csa (some sa)] rootStore) = .error x := by
+  have hlt : strLe b a = false := by
+    simp only [strLe, decide_eq_false_iff_not]
+    exact String.not_le.2 hab
+  constructor
+  · exact loadHistory_fault_order rn [] [.dir b csb (some sb)] (.dir a csa (some sa)) rootStore x hroot
+      (storeFault_of_faulty sa x h) (by simpa [Node.name] using Or.inl hlt)
+  · exact loadHistory_fault_order rn [.dir b csb (some sb)] [] (.dir a csa (some sa)) rootStore x hroot
+      (storeFault_of_faulty sa x h) (by simpa [Node.name] using Or.inl hlt)
+
+/-- with distinct sibling names two children with the same name are the same child -/
+theorem eq_of_name_eq {cs : List Node} (hnd : (cs.map Node.name).Nodup) {c c' : Node} (hc : c ∈ cs) (hc' : c' ∈ cs)
+    (h : c.name = c'.name) : c = c' := by
+  induction cs with
+  | nil => cases hc
+  | cons d ds ih =>
+    rw [List.map_cons, List.nodup_cons] at hnd
+    rcases List.mem_cons.1 hc with rfl | hc1 <;> rcases List.mem_cons.1 hc' with rfl | hc2
+    · rfl
+    · exact absurd (List.mem_map.2 ⟨c', hc2, h.symm⟩) hnd.1
+    · exact absurd (List.mem_map.2 ⟨c, hc1, h⟩) hnd.1
+    · exact ih hnd.2 hc1 hc2
+
+/-- the reported damage does not depend on the order in which the OS lists a folder (distinct names, as on disk) -/
+theorem nestedFaults_listing_order (n n' : String) {cs₁ cs₂ : List Node} (h h' : Option HistStore)
+    (hp : cs₁.Perm cs₂) (hnd : (cs₁.map Node.name).Nodup) :
+    nestedFaults (.dir n cs₁ h) = nestedFaults (.dir n' cs₂ h') := by
+  rw [nestedFaults_dir, nestedFaults_dir]
+  congr 1
+  let f : Node → String × List Err := fun c => (c.name, (storeFault c.hist).toList ++ nestedFaults c)
+  refine List.Perm.eq_of_pairwise (le := fun a b => keyLe a b = true) ?_
+    (isort_pairwise_d keyLe keyLe_total keyLe_trans _) (isort_pairwise_d keyLe keyLe_total keyLe_trans _)
+    ((isort_perm_d keyLe _).trans ((hp.map f).trans (isort_perm_d keyLe _).symm))
+  intro a b ha hb hab hba
+  rw [mem_isort_d, List.mem_map] at ha hb
+  obtain ⟨c, hc, rfl⟩ := ha
+  obtain ⟨c', hc', rfl⟩ := hb
+  have hn : c.name = c'.name := strLe_antisymm _ _ hab hba
+  rw [eq_of_name_eq hnd hc (hp.symm.subset hc') hn]
+
+theorem loadHistory_error_listing_order (n n' : String) {cs₁ cs₂ : List Node} (h : Option HistStore)
+    (hp : cs₁.Perm cs₂) (hnd : (cs₁.map Node.name).Nodup) (x : Err) :
+    loadHistory (.dir n cs₁ h) = .error x ↔ loadHistory (.dir n' cs₂ h) = .error x := by
+  rw [loadHistory_error_iff, loadHistory_error_iff, allFaults, allFaults,
+    nestedFaults_listing_order n n' h h hp hnd]
+  rfl
 
 /-! ### 5. every history-reading command refuses and writes nothing -/
 
@@ -332,9 +461,29 @@ def tree2 : Node :=
 example : allFaults tree2 = [errNoChain] := by decide
 example : loadHistory tree2 = .error (.exit 32) := error_of_decide _ _ (by decide)
 
-/-- the model's stored-order evaluation: two damaged histories, the first in stored order is reported -/
+/-- walk order, not stored order: of two damaged sibling histories the one with the smaller name is reported,
+whichever way round they are listed -/
 example : allFaults (.dir "r" [.dir "b" [] (some sNoChain), .dir "a" [] (some sMod)] none)
-    = [errNoChain, errModified] := by decide
+    = [errModified, errNoChain] := by decide
+example : allFaults (.dir "r" [.dir "a" [] (some sMod), .dir "b" [] (some sNoChain)] none)
+    = [errModified, errNoChain] := by decide
+example : loadHistory (.dir "r" [.dir "b" [] (some sNoChain), .dir "a" [] (some sMod)] none)
+    = .error (.exit 31) := error_of_decide _ _ (by decide)
+
+/-- a damaged parent history is reported before the damage in the history nested in it (31 before 32), and the
+nested damage of "a" before the sibling "b" -/
+def tree3 : Node :=
+  .dir "root" [.dir "b" [] (some sBoth),
+               .dir "a" [.dir "inner" [] (some sNoChain)] (some sMod)] (some sFine)
+
+example : allFaults tree3 = [errModified, errNoChain, errMissingManifest] := by decide
+example : loadHistory tree3 = .error (.exit 31) := error_of_decide _ _ (by decide)
+
+/-- the hypotheses of `loadHistory_fault_order` are satisfiable on that tree -/
+example : loadHistory tree3 = .error errModified :=
+  loadHistory_fault_order "root" [.dir "b" [] (some sBoth)] []
+    (.dir "a" [.dir "inner" [] (some sNoChain)] (some sMod)) (some sFine) errModified
+    (by decide) (by decide) (by decide)
 
 /-- a command on the damaged tree -/
 example : (verify { H := fun _ _ => "", D := fun _ _ => none, hit := fun _ _ => false, rootName := "root" } tree1 {})
